@@ -132,10 +132,24 @@ var propPred = hx.Prop[PCase]{
 	Rule: "configurations (both default switches, accept/reject/store/discard lists of 0-3 vocabulary domains in random letter case, 0-3 " +
 		"reject-origin patterns with wildcards) loaded through environment variables and config.Process; ShouldAcceptDomain / " +
 		"ShouldStoreDomain / ShouldAcceptOriginDomain compared with a reference written from doc/config.md for vocabulary, foreign and " +
-		"IP-literal domains in random case; non-trivial = a list that matters for the drawn default is non-empty or a pattern has a wildcard",
+		"IP-literal domains in random case; one case in five comes from a dense corner (patterns '*.'+{a,b}{1,2}, domains {a,b}{1,2}.{a,b}{1,2}) " +
+		"whose 216 combinations recur within a process in every order (no verdict may depend on earlier decisions); non-trivial = a list that matters for the drawn default is non-empty or a pattern has a wildcard",
 	Quick: 5000, Thorough: 20000,
 	Gen: func(t *rapid.T) PCase {
 		c := PCase{Cfg: cfgGen.Draw(t, "cfg"), Domain: domGen.Draw(t, "domain")}
+		if rapid.IntRange(0, 4).Draw(t, "dense") == 0 {
+			// a dense corner: suffix patterns and two-label domains over two letters, 216 combinations
+			// in all, so that within one process the same and nearly the same (pattern, domain)
+			// pairs are decided over and over in every order - a verdict must not depend on which
+			// decisions were taken before it
+			ab := rapid.StringOfN(rapid.SampledFrom([]rune("ab")), 1, 2, -1)
+			c.Cfg.RejectOrigin = nil
+			for i, n := 0, rapid.IntRange(1, 2).Draw(t, "npat"); i < n; i++ {
+				c.Cfg.RejectOrigin = append(c.Cfg.RejectOrigin, "*."+ab.Draw(t, "suffix"))
+			}
+			c.Domain = ab.Draw(t, "label") + "." + ab.Draw(t, "tld")
+			return c
+		}
 		if rapid.IntRange(0, 3).Draw(t, "letter") == 0 {
 			// case folding letter by letter: a listed domain queried with exactly one kind of
 			// letter in upper case (every letter of the alphabet gets its turn)
